@@ -341,3 +341,40 @@ package anchoring
 //@ func (*additionalCriterionAnchoringState).newCriterion
 //@   trusted
 //@   ensures result != nil && fresh(result.AlternativesValues) && result.AlternativesValues != nil
+
+//@ spec applierName(f AnchoringApplier) string
+//@ ifacemethod AnchoringApplier.Identifier
+//@   ensures result == applierName(self)
+//@ func (*Anchoring).getAnchoringApplier
+//@   property C19 C20
+//@   ensures [first_with_that_name] exists k int :: 0 <= k && k < len(a.anchoringAppliers) && result.fun == a.anchoringAppliers[k] && applierName(result.fun) == params.Function
+//@             && forall j int :: 0 <= j && j < k ==> applierName(a.anchoringAppliers[j]) != params.Function
+//@   loop 1 invariant [none_so_far] forall j int :: 0 <= j && j < iter ==> applierName(a.anchoringAppliers[j]) != params.Function
+//@ spec refPointsName(f ReferencePointsEvaluator) string
+//@ ifacemethod ReferencePointsEvaluator.Identifier
+//@   ensures result == refPointsName(self)
+//@ func (*Anchoring).getReferencePointsFunction
+//@   property C19 C20
+//@   ensures [first_with_that_name] exists k int :: 0 <= k && k < len(a.referencePointsEvaluators) && result == a.referencePointsEvaluators[k] && refPointsName(result) == params.Function
+//@             && forall j int :: 0 <= j && j < k ==> refPointsName(a.referencePointsEvaluators[j]) != params.Function
+//@   loop 1 invariant [none_so_far] forall j int :: 0 <= j && j < iter ==> refPointsName(a.referencePointsEvaluators[j]) != params.Function
+
+// the anchoring alternatives with their coefficients, looked up among all known alternatives, in the order given
+//@ func fetchAnchoringAlternativesWithCriteria
+//@   property C19
+//@   ensures [in_request_order_with_coefficients] result != nil && fresh(result) && len(*result) == len(*anchoringAlternatives) && forall k int :: 0 <= k && k < len(*anchoringAlternatives) ==>
+//@             (*result)[k].Coefficient == (*anchoringAlternatives)[k].Coefficient && (*result)[k].Alternative.Id == (*anchoringAlternatives)[k].Alternative
+//@             && exists j int :: 0 <= j && j < len(*alternatives) && (*result)[k].Alternative == (*alternatives)[j]
+//@   loop 1 invariant [ctx] fresh(result) && len(result) == len(*anchoringAlternatives)
+//@   loop 1 invariant [so_far] forall k int :: 0 <= k && k < iter ==> result[k].Coefficient == (*anchoringAlternatives)[k].Coefficient && result[k].Alternative.Id == (*anchoringAlternatives)[k].Alternative
+//@             && exists j int :: 0 <= j && j < len(*alternatives) && result[k].Alternative == (*alternatives)[j]
+
+// every criterion gets the configured bounding (bound to a range) next to its own scale
+//@ func matchScalingWithBounding
+//@   property C19
+//@   ensures [per_criterion] fresh(result) && forall c string :: (c in result <==> c in scaling) && (c in scaling ==> result[c].scaling == scaling[c] && result[c].bounding != nil && result[c].bounding.bounding == bounding)
+//@   loop 1 invariant [ctx] fresh(result) && result != nil
+//@   loop 1 invariant [done] forall c string :: seen(c) ==> c in result && result[c].scaling == scaling[c] && result[c].bounding != nil && result[c].bounding.bounding == bounding
+//@   loop 1 invariant [only] forall c string :: c in result ==> seen(c)
+//@   loop 1 hint [bounding_on_the_criterions_own_range] bounding.AllowedValuesRangeScaling > 0.0 ==> result[c].bounding.valueRange != nil
+//@             && result[c].bounding.valueRange.Min == utils.scaledMin(s.ValuesRange, bounding.AllowedValuesRangeScaling) && result[c].bounding.valueRange.Max == utils.scaledMax(s.ValuesRange, bounding.AllowedValuesRangeScaling)
